@@ -202,6 +202,41 @@ func TestVerifAbacoUDP(t *testing.T) {
 		time.Sleep(30 * time.Millisecond)
 		step("stop2", func() error { return as.Stop() }, 10*time.Second)
 	}
+	au.mu.Lock()
+	au.armed = false
+	au.mu.Unlock()
+	// a run that ends by itself: the sender falls silent and the reader gives up after its 5 s time-out (closing its
+	// devices on the way).  getNextBlock has a panic timer of the same length that is re-armed whenever it is called; a
+	// request that keeps the core loop busy for 2 s while the silence begins makes the orderly time-out come first.
+	if err := as.Configure(&AbacoSourceConfig{HostPortUDP: []string{addr}}); err == nil {
+		step("restart", func() error { return Start(as, q, 10, 40) }, 15*time.Second)
+		time.Sleep(100 * time.Millisecond)
+		select {
+		case q <- func() { close(stop); time.Sleep(2 * time.Second) }:
+		case <-time.After(5 * time.Second):
+			close(stop)
+		}
+		for i := 0; i < 200 && as.GetState() != Inactive; i++ {
+			time.Sleep(50 * time.Millisecond)
+		}
+		step("stop-after-selfend", func() error { as.Stop(); return nil }, 10*time.Second)
+		time.Sleep(200 * time.Millisecond)
+		step("after-selfend", func() error { return nil }, time.Second)
+		// ... and the same source starts again once data flow
+		stop = make(chan struct{})
+		go auSender(addr, stop)
+		time.Sleep(50 * time.Millisecond)
+		if err := as.Configure(&AbacoSourceConfig{HostPortUDP: []string{addr}}); err != nil {
+			vEmit(vmap{"ev": "UDPStep", "scen": 1, "step": "restart", "returned": true, "err": "Configure: " + err.Error(), "state": lcStateName(as.GetState()), "writing": false, "census": vmap{"core": 0, "udp": 0, "reader": 0}})
+		} else {
+			step("restart", func() error { return Start(as, q, 10, 40) }, 15*time.Second)
+			time.Sleep(50 * time.Millisecond)
+			step("stop2", func() error { return as.Stop() }, 10*time.Second)
+		}
+	}
+	au.mu.Lock()
+	au.armed = true
+	au.mu.Unlock()
 	close(stop)
 	time.Sleep(300 * time.Millisecond)
 	// gated failing Start: nothing is sending any more, Sample() finds no data and stops the receivers it opened
